@@ -85,7 +85,7 @@ def run(R):
         R.floor("%s|init success paths" % cfg, n, 1)
         # O4 frame: no other &mut self method changes the flag or emits sleep-class commands
         nm = 0
-        for rec in C.display_methods(F):
+        for rec in C.display_methods(F, public_only=True):
             if rec["name"] in ("sleep", "wake"):
                 continue
             nm += 1
